@@ -407,7 +407,8 @@ Proof.
   intros Hal Hpre Hsol. unfold loco_pre_step, loco_set_cur_pwr_max_out in Hpre.
   apply bind_ok in Hpre. destruct Hpre as (t1 & Ht1 & Hpre).
   apply bind_ok in Hpre. destruct Hpre as (u & _ & Hpre). inversion Hpre; subst l1; clear Hpre.
-  unfold loco_solve in Hsol.
+  unfold loco_solve in Hsol. cbv zeta in Hsol.
+  apply bind_ok in Hsol; destruct Hsol as ([] & Hlimchk & Hsol). apply ensure_ok in Hlimchk.
   cbn [lc_state lc_type loco_with lc_assert_limits loco_set_pwr_aux ls_pwr_aux] in *.
   apply bind_ok in Hsol. destruct Hsol as (t2 & Ht2 & Hsol). inversion Hsol; subst l'; clear Hsol.
   unfold loco_limits_ok, loco_edrv. cbn [lc_state lc_type loco_with ls_pwr_out_max ls_pwr_regen_max]. numR.
@@ -468,4 +469,25 @@ Proof.
   assert (H6 : Rltb 0 (1000 + 0) = true) by (apply Rltb_true; lra).
   rewrite H1, H2, H3, H4, H5, H6. cbn [orb bind]. eexists. split; [reflexivity|].
   cbn [res_state res_with rs_soc]. split; [lra|]. unfold Rdiv. rewrite Rinv_1. lra.
+Qed.
+
+(* ---- tractive power is within the published locomotive limit, also for a locomotive on its own (/repo fix:
+   Locomotive::solve_energy_consumption checks the demand against state.pwr_out_max like Consist does) ---- *)
+Lemma pre_step_keeps_assert (l l1 : Loco (F:=R)) dt on : loco_pre_step l dt on = Ok l1 -> lc_assert_limits l1 = lc_assert_limits l.
+Proof.
+  unfold loco_pre_step, loco_set_cur_pwr_max_out. intros H.
+  apply bind_ok in H. destruct H as (t1 & _ & H). apply bind_ok in H. destruct H as (u & _ & H).
+  inversion H; subst. reflexivity.
+Qed.
+
+Theorem loco_step_within_published (l l' : Loco (F:=R)) pwr dt on :
+  lc_assert_limits l = true -> loco_sim_solve_step l pwr dt on = Ok l' ->
+  exists l1, loco_pre_step l dt on = Ok l1 /\
+    (pwr < ls_pwr_out_max (lc_state l1) * (1 + / 100000000) \/ pwr < ls_pwr_out_max (lc_state l1) + / 100000000).
+Proof.
+  intros Hal H. destruct (loco_sim_step_stages _ _ _ _ _ H) as (l1 & H1 & H2). exists l1. split; [exact H1|].
+  pose proof (pre_step_keeps_assert _ _ _ _ H1) as Ha. rewrite Hal in Ha.
+  unfold loco_solve in H2. cbv zeta in H2. apply bind_ok in H2. destruct H2 as ([] & E & _). apply ensure_ok in E.
+  rewrite Ha in E. cbn [negb orb] in E. unfold almost_le in E. rewrite eps8_val in E. numR.
+  apply orb_true_iff in E. destruct E as [E|E]; apply Rltb_true in E; [left|right]; exact E.
 Qed.
